@@ -30,6 +30,7 @@ EXPECT = {
     "LoadPolicies refuses serialized policies": ["C18"],
     "LoadPolicies keeps the meaning": ["C04"],
     "keeps its rules after Authorize": ["C03"],
+    "adds the loaded checks and policies": ["C04"],
 }
 def sh(cmd, **kw):
     return subprocess.run(cmd, shell=True, capture_output=True, text=True, **kw)
